@@ -114,6 +114,7 @@ def match_known(prop, ob, known):
 
 
 def safe_name(s):
+    s = s.replace(">=", "ge").replace("<=", "le").replace(">", "gt").replace("<", "lt").replace("=", "eq")
     return re.sub(r"[^A-Za-z0-9_.\-\[\]]+", "_", s)
 
 
